@@ -97,10 +97,20 @@ def curated():
         ('rule', 'Guarded', None, ('seq', [('ref', 'NotA'), ('opt', ('ref', 'Word')), ('opt', ('ref', 'AheadA'))])),
         ('class', 'Line', None, [('field', 'word', ('ref', 'Word')), ('field', 'end', ('opt', ('ref', 'End'))),
                                  ('field', 'rest', ('re', '[ab]*', False))])])))
+    # parameterised classes used directly as entry points: Cls.parse(*values)(text, pos, fullparse)
+    out.append(('class-template-entry', dict(name=None, extends=None, stmts=[
+        ('rule', 'start', None, ('alt', [('call', 'Rep', [('num', '2')]), ('call', 'Tagged', [('py', "'s'"), ('num', '1')])])),
+        ('class', 'Rep', ['n'], [('field', 'items', ('rep', T, ('name', 'n'), ('name', 'n'))), ('field', 'cnt', ('py', 'n'))]),
+        ('class', 'Tagged', ['t', 'k'], [('field', 'head', ('rep', ('str', 'a'), ('name', 'k'), ('name', 'k'))), ('field', 'label', ('py', 't')),
+                                         ('field', 'rest', ('re', '[ab]*', False))]),
+        ('rule', 'Two', None, ('call', 'Rep', [('num', '2')]))])))
     return out
 
 
-def run_one(rec, G, tag, alphabet, maxlen, bytes_mode=False, shiftable=True, named=False):
+TEMPLATE_ENTRIES = [('Rep', (0,)), ('Rep', (1,)), ('Rep', (2,)), ('Tagged', ('x', 0)), ('Tagged', (None, 2))]
+
+
+def run_one(rec, G, tag, alphabet, maxlen, bytes_mode=False, shiftable=True, named=False, extra_entries=()):
     if not gen.well_formed(G):
         rec.drop()
         return
@@ -110,7 +120,7 @@ def run_one(rec, G, tag, alphabet, maxlen, bytes_mode=False, shiftable=True, nam
     if b is None:
         return
     rec.count('descriptions')
-    entries = work.rule_entries(G)
+    entries = work.rule_entries(G) + list(extra_entries)
     desc = b.descs[-1]
     inputs = work.inputs_for(alphabet, maxlen, bytes_mode)
     for text in inputs:
@@ -258,7 +268,11 @@ def run_shard(rec):
             if 'lookahead-class' in tag or 'backtrack-class' in tag:
                 alpha = 'a<>!'
             run_one(rec, G, ('curated', tag), alpha, 5 if quick else 6,
-                    shiftable=('backtrack' not in tag))
+                    shiftable=('backtrack' not in tag),
+                    extra_entries=TEMPLATE_ENTRIES if tag == 'class-template-entry' else ())
+            if tag == 'class-template-entry':
+                # the same through a grammar installed under a name
+                run_one(rec, G, ('curated', tag, 'named'), alpha, 4 if quick else 5, named=True, extra_entries=TEMPLATE_ENTRIES)
     if rec.shard == 3:
         deep_partial(rec, quick)
     from . import c13
@@ -304,6 +318,8 @@ def replay(rec, rep):
         return
     text = ast.literal_eval(case['text_repr'])
     entry, pos = case.get('entry'), case.get('pos', 0)
+    if isinstance(entry, list):
+        entry = (entry[0], tuple(entry[1]))
     r = diff.compare(rec, b, text, entry, pos, case.get('fullparse', True), monitors=('value', 'outcome'))
     if case.get('shift') and r is not None:
         o2 = observe.observe(b.g, text[pos:], entry, 0, True)
